@@ -15,19 +15,20 @@ INVARIANTS Theorem AltIsUnion Emit
 """
 
 
-def render_path(a, rnd, top=True):
-    """AST -> text with random optional white space and redundant parentheses (| binds tighter than /)."""
+def render_path(a, rnd, top=True, custom=None):
+    """AST -> text with random optional white space and redundant parentheses (| binds tighter than /).
+    custom: the predicate written with the apiExt prefix (a custom domain property, tutorial section 4.3)."""
     def sp():
         return rnd.choice(["", " ", " ", "  "])
     k = a["k"]
     if k == "type":
         s = "@type"
     elif k == "p":
-        s = "ex." + a["p"] + (rnd.choice(["^", " ^"]) if a["inv"] else "")
+        s = ("apiExt." if a["p"] == custom else "ex.") + a["p"] + (rnd.choice(["^", " ^"]) if a["inv"] else "")
     elif k == "and":
         parts = []
         for x in a["xs"]:
-            t = render_path(x, rnd, False)
+            t = render_path(x, rnd, False, custom)
             if x["k"] == "and" or (x["k"] == "or" and rnd.random() < 0.3):
                 t = "(" + sp() + t + sp() + ")"
             parts.append(t)
@@ -37,7 +38,7 @@ def render_path(a, rnd, top=True):
     else:
         parts = []
         for x in a["xs"]:
-            t = render_path(x, rnd, False)
+            t = render_path(x, rnd, False, custom)
             if x["k"] in ("and", "or"):
                 t = "(" + sp() + t + sp() + ")"
             parts.append(t)
@@ -71,14 +72,23 @@ def gen_path(rnd, depth):
     return {"k": k, "xs": [gen_path(rnd, depth - 1) for _ in range(rnd.choice([2, 2, 3, 4]))]}
 
 
-def gen_graph(rnd, n, name):
+def gen_graph(rnd, n, name, custom=None):
+    """custom: this predicate is a custom domain property -- its objects are extension nodes: nodes (never literals)
+    that no other predicate points to (that is what the AMF encoding of extensions can express)"""
     nodes = ["n%d" % i for i in range(1, n + 1)]
     lits = ["l1", "l2", "l3"]
+    ext = set(rnd.sample(nodes, max(1, n // 3))) if custom else set()
+    plain = [x for x in nodes if x not in ext]
     edges = set()
     for _ in range(rnd.randrange(n, 3 * n)):
         s = rnd.choice(nodes)
         p = rnd.choice(["p", "q", "r"])
-        o = rnd.choice(nodes + nodes + lits)
+        if custom and p == custom:
+            o = rnd.choice(sorted(ext))
+        elif custom:
+            o = rnd.choice(plain + plain + lits)
+        else:
+            o = rnd.choice(nodes + nodes + lits)
         edges.add((s, p, o))
     types = {x: ["T"] + ([rnd.choice(["C1", "C2"])] if rnd.random() < 0.3 else []) for x in nodes}
     return {"name": name, "nodes": nodes, "edges": sorted(list(e) for e in edges), "types": types}
@@ -142,8 +152,10 @@ def run(tier):
     # (B) random paths x random graphs, judged by the same TLC denotation (file mode)
     nrand = 60 if quick else 2500
     fin = []
+    custom_of = {}
     for i in range(nrand):
-        g = gen_graph(rnd, rnd.choice([4, 6, 9, 12] if quick else [4, 6, 9, 12, 18, 25]), "rand%d" % i)
+        custom_of["rand%d" % i] = "r" if i % 3 == 0 else None
+        g = gen_graph(rnd, rnd.choice([4, 6, 9, 12] if quick else [4, 6, 9, 12, 18, 25]), "rand%d" % i, custom_of["rand%d" % i])
         for j in range(4):
             while True:
                 p = gen_path(rnd, rnd.choice([2, 3, 4]))
@@ -186,10 +198,10 @@ def run(tier):
             for path, den, g, src in batch:
                 pid = "p%06d" % n
                 n += 1
-                text = render_path(path, rnd)
+                text = render_path(path, rnd, True, custom_of.get(gname))
                 paths.append({"pid": pid, "text": text})
                 meta[pid] = (path, text, g, den, src)
-            hcases.append({"id": "%s/%d" % (gname, b), "graph": batch[0][2], "paths": paths})
+            hcases.append({"id": "%s/%d" % (gname, b), "graph": batch[0][2], "paths": paths, "custom": custom_of.get(gname) or ""})
     obs = vlib.run_harness("pathden", hcases, "c02", timeout=3000)
     nontriv = 0
     for o in obs:
@@ -221,7 +233,8 @@ def run(tier):
 def replay(path):
     doc = json.load(open(path))
     c = doc["case"]
-    case = {"id": "replay", "graph": c["graph"], "paths": [{"pid": "p000000", "text": c["text"]}]}
+    case = {"id": "replay", "graph": c["graph"], "paths": [{"pid": "p000000", "text": c["text"]}],
+            "custom": "r" if "apiExt.r" in c["text"] else ""}
     obs = vlib.run_harness("pathden", [case], "replay_c02", shards=1)
     print(json.dumps(obs[0], indent=1))
     o = obs[0]["paths"][0]["nodes"].get(c["focus"], {"values": []})
